@@ -254,7 +254,9 @@ func (w *World) computeStable() {
 						if isFreshAlloc(fa.X) {
 							continue
 						}
-						w.unstable[fieldKeyOf(fa)] = true
+						for _, k := range fieldKeysOf(fa) {
+							w.unstable[k] = true
+						}
 					}
 				case *ssa.FieldAddr:
 					for _, r := range *in.Referrers() {
@@ -262,7 +264,9 @@ func (w *World) computeStable() {
 						case *ssa.UnOp, *ssa.Store, *ssa.FieldAddr, *ssa.IndexAddr, *ssa.DebugRef:
 							_ = r
 						default:
-							w.unstable[fieldKeyOf(in)] = true
+							for _, k := range fieldKeysOf(in) {
+								w.unstable[k] = true
+							}
 						}
 					}
 				}
@@ -328,7 +332,14 @@ func (w *World) computeMods() {
 					for {
 						if fa, ok := addr.(*ssa.FieldAddr); ok {
 							st := derefStruct(fa.X.Type())
-							touched = append(touched, st.Field(fa.Field).Name())
+							f := st.Field(fa.Field)
+							touched = append(touched, f.Name())
+							if embeddedStruct(f) && addr == in.Addr {
+								// the embedded struct replaced as a whole: all its (promoted) fields change
+								for _, pf := range flatFields(f.Type().Underlying().(*types.Struct)) {
+									touched = append(touched, pf.Name())
+								}
+							}
 							addr = fa.X
 							continue
 						}
@@ -483,4 +494,55 @@ func fnKey(f *ssa.Function) string {
 	s = strings.ReplaceAll(s, "github.com/bobertlo/gmars/cmd/gmars.", "cmd.")
 	s = strings.ReplaceAll(s, "github.com/bobertlo/gmars.", "")
 	return s
+}
+
+// fieldKeysOf: the "Type.field" names affected by a store through fa: the
+// field itself, the same field as promoted into every struct that embeds its
+// struct on the way, and — when fa selects an embedded struct as a whole —
+// all of that struct's fields under each of those names.
+func fieldKeysOf(fa *ssa.FieldAddr) []string {
+	typeOf := func(x ssa.Value) (string, *types.Struct) {
+		t := x.Type()
+		if p, ok := t.Underlying().(*types.Pointer); ok {
+			t = p.Elem()
+		}
+		st, _ := t.Underlying().(*types.Struct)
+		return types.TypeString(t, func(*types.Package) string { return "" }), st
+	}
+	var owners []string
+	cur := fa
+	for {
+		name, _ := typeOf(cur.X)
+		owners = append(owners, name)
+		outer, ok := cur.X.(*ssa.FieldAddr)
+		if !ok {
+			break
+		}
+		_, ost := typeOf(outer.X)
+		if ost == nil || !embeddedStruct(ost.Field(outer.Field)) {
+			break
+		}
+		cur = outer
+	}
+	_, st := typeOf(fa.X)
+	f := st.Field(fa.Field)
+	var fields []string
+	var collect func(v *types.Var)
+	collect = func(v *types.Var) {
+		fields = append(fields, v.Name())
+		if embeddedStruct(v) {
+			es := v.Type().Underlying().(*types.Struct)
+			for i := 0; i < es.NumFields(); i++ {
+				collect(es.Field(i))
+			}
+		}
+	}
+	collect(f)
+	var out []string
+	for _, o := range owners {
+		for _, fn := range fields {
+			out = append(out, o+"."+fn)
+		}
+	}
+	return out
 }
